@@ -27,6 +27,7 @@ pub fn shuttle_run<F: Fn() + Send + Sync + 'static>(seed: u64, pct: bool, max_st
 impl Prop for C09 {
     type Case = WinCase;
     fn id(&self) -> &'static str { "C09" }
+    fn expected_counters(&self) -> Vec<&'static str> { vec!["fault.shuttle_scheduled_channel_consumer", "probe.width_smaller_than_slide", "probe.width_not_multiple_of_slide", "fault.burst_same_timestamp", "fault.jump_larger_than_width"] }
     fn budget(&self, tier: Tier) -> Budget { match tier { Tier::Quick => Budget { runs: 60_000, wall_s: 60, recheck: 40 }, Tier::Thorough => Budget { runs: 6_000_000, wall_s: 1200, recheck: 200 } } }
     fn hash_seed(&self, c: &WinCase) -> u64 { c.hash_seed }
     fn gen(&self, seed: u64, _i: u64, _t: Tier) -> WinCase {
@@ -230,6 +231,7 @@ fn sorted(mut v: Vec<Row>) -> Vec<Row> { v.sort(); v }
 impl Prop for C10 {
     type Case = SingleCase;
     fn id(&self) -> &'static str { "C10" }
+    fn expected_counters(&self) -> Vec<&'static str> { vec!["probe.raw_item_equals_fact_derived_in_previous_firing", "fault.shuttle_schedule_executed", "probe.consumer_rows_interleaved_with_pushes", "probe.rules_loaded"] }
     fn budget(&self, tier: Tier) -> Budget { match tier { Tier::Quick => Budget { runs: 8000, wall_s: 60, recheck: 20 }, Tier::Thorough => Budget { runs: 400_000, wall_s: 1200, recheck: 60 } } }
     fn hash_seed(&self, c: &SingleCase) -> u64 { c.hash_seed }
     fn gen(&self, seed: u64, _i: u64, tier: Tier) -> SingleCase {
@@ -406,6 +408,7 @@ fn judge_row(c: &MultiCase, r: &Row, contents: &[Vec<(usize, BTreeSet<Fact>)>], 
 impl Prop for C11 {
     type Case = MultiCase;
     fn id(&self) -> &'static str { "C11" }
+    fn expected_counters(&self) -> Vec<&'static str> { vec!["fault.shuttle_schedule_executed", "fault.coordinator_timeout_fired", "probe.consumer_rows_interleaved_with_pushes", "probe.static_block_present"] }
     fn budget(&self, tier: Tier) -> Budget { match tier { Tier::Quick => Budget { runs: 4000, wall_s: 60, recheck: 20 }, Tier::Thorough => Budget { runs: 250_000, wall_s: 1200, recheck: 60 } } }
     fn hash_seed(&self, c: &MultiCase) -> u64 { c.hash_seed }
     fn gen(&self, seed: u64, _i: u64, tier: Tier) -> MultiCase {
@@ -554,6 +557,7 @@ fn exec_xw(c: &XwCase, ctx: &mut Ctx) -> Option<Violation> {
 impl Prop for C12 {
     type Case = C12Case;
     fn id(&self) -> &'static str { "C12" }
+    fn expected_counters(&self) -> Vec<&'static str> { C12Sds.expected_counters() }
     fn budget(&self, tier: Tier) -> Budget { C12Sds.budget(tier) }
     fn hash_seed(&self, c: &C12Case) -> u64 { match c { C12Case::Sds(s) => s.hash_seed, C12Case::Engine(e) => e.hash_seed } }
     // The engine clause is NOT generated (ENGINE_CLAUSE_ONE_IN = 0): it turned out to demand more than C12 states. The real engine evaluates the
